@@ -214,8 +214,9 @@ func (ego *list) Insert(index int, value any) List {
 	if index == ego.Ego().Count() {
 		return ego.Ego().Add(value)
 	}
+	field := parseVal(value)
 	ego.val = append(ego.val[:index+1], ego.val[index:]...)
-	ego.val[index] = parseVal(value)
+	ego.val[index] = field
 	return ego.Ego()
 }
 
